@@ -1,4 +1,6 @@
 
+val negb : bool -> bool
+
 type nat =
 | O
 | S of nat
@@ -15,6 +17,8 @@ type comparison =
 | Gt
 
 val add : nat -> nat -> nat
+
+val sub : nat -> nat -> nat
 
 val eqb : nat -> nat -> bool
 
@@ -220,6 +224,10 @@ type ucont =
 
 val utf8_cont : ustate -> n -> ucont
 
+val valid_from : ustate option -> n list -> bool
+
+val valid_utf8 : n list -> bool
+
 val utf8_decode : n list -> n
 
 val replacement : n
@@ -311,6 +319,22 @@ val set_uni : vt -> (ustate * n list) option -> vt
 
 val vt_step : vt -> n -> vt * event list
 
+val is_ws_control : n -> bool
+
+val keeps : vact -> n -> bool
+
+type sstate = { sv : vstate; su : ustate option }
+
+val s_init : sstate
+
+val plain_step : vstate -> n -> sstate * bool
+
+val strip_step : sstate -> n -> sstate * bool
+
+val strip_run : sstate -> n list -> sstate * n list
+
+val spec_strip : n list -> n list
+
 val aget : 'a1 list -> n -> 'a1 option
 
 val aset_nat : 'a1 list -> nat -> 'a1 -> 'a1 list option
@@ -369,6 +393,10 @@ val state_change_ : state -> n -> n option
 val unpack : n -> (state * action) option
 
 val state_change : state -> n -> (state * action) option
+
+val state_eqb : state -> state -> bool
+
+val action_eqb : action -> action -> bool
 
 type params = { subparams : n list; pvals : n list; current_subparams : 
                 n; plen : n }
@@ -433,3 +461,57 @@ val perform_state_change :
   cfg -> parser0 -> state -> action -> n -> (parser0 * event list) option
 
 val advance : cfg -> parser0 -> n -> (parser0 * event list) option
+
+val is_ascii_whitespace : n -> bool
+
+val is_printable_bytes : action -> n -> bool
+
+val is_utf8_continuation : n -> bool
+
+val is_ascii : n -> bool
+
+val utf8_add : u8parser -> n -> u8parser * bool
+
+val nb_skip :
+  n list -> state -> u8parser -> ((n list * state) * u8parser) option
+
+val nb_take :
+  n list -> state -> u8parser -> (((n list * n list) * state) * u8parser)
+  option
+
+type piece = { p_off : n; p_bytes : n list }
+
+val next_bytes :
+  n list -> n -> state -> u8parser -> ((((piece option * n
+  list) * n) * state) * u8parser) option
+
+val bytes_iter :
+  nat -> n list -> n -> state -> u8parser -> (((piece list * n
+  list) * state) * u8parser) option
+
+val strip_next_bytes :
+  n list -> state -> u8parser -> (((piece list * n list) * state) * u8parser)
+  option
+
+val strip_bytes_pieces : n list -> piece list option
+
+val strip_bytes_chunks :
+  n list list -> state -> u8parser -> ((piece list list * state) * u8parser)
+  option
+
+val ns_skip : n list -> state -> (n list * state) option
+
+val ns_take : n list -> state -> (n list * n list) option
+
+val next_str :
+  n list -> n -> state -> (((piece option * n list) * n) * state) option
+
+val str_iter :
+  nat -> n list -> n -> state -> ((piece list * n list) * state) option
+
+val strip_next_str : n list -> state -> ((piece list * n list) * state) option
+
+val strip_str_pieces : n list -> piece list option
+
+val strip_str_chunks :
+  n list list -> state -> (piece list list * state) option
